@@ -234,6 +234,9 @@ class MediaFile(ModelMixin["MediaFile"], Base):
                     atom_type='wrap', position=0, size=self.blob.size,
                     parent=None, children=mp4.Mp4Atom.load(src))
             rep = Representation.load(filename=self.name, atoms=atom.children)
+            # check that the representation can be created again from the
+            # form that is stored in the database (see _post_init)
+            Representation(**rep.toJSON(pure=True))
         except Exception as parse_err:
             # a truncated or corrupt file can make the parser fail in many
             # ways (struct.error, IndexError, AttributeError, ValueError ..)
